@@ -1541,6 +1541,10 @@ async def c03_definition_order(w):
 
 
 PROGRAMS_C03 = [
+    # (the next three were added after round-2 seeds C03-3 / C03-4 had shown the gap: not written blind)
+    ("duplicate-keyword-after-mapping", "def f(a=0, **kw):\n    return (a, kw)\nd = {'a': 1}\ntry:\n    r = f(**d, a=2)\nexcept TypeError:\n    r = 'TypeError'\nr2 = f(**{'b': 1}, a=2)\n"),
+    ("same-name-in-two-enclosing-functions-class-between", "def outer():\n    x = 'outer'\n    def middle():\n        x = 'middle'\n        class C:\n            def m(self):\n                return x\n        return C().m()\n    return [middle(), x]\nr = outer()\n"),
+    ("nonlocal-write-through-class-between", "def outer():\n    x = 0\n    def middle():\n        x = 10\n        class C:\n            def bump(self):\n                nonlocal x\n                x += 1\n                return x\n        c = C()\n        return [c.bump(), c.bump(), x]\n    return [middle(), x]\nr = outer()\n"),
     ("lambda-closure", "def f():\n    x = 41\n    g = lambda y: x + y\n    return g(1)\nr = f()\n"),
     ("duplicate-keyword-via-mapping", "def f(p, k=None):\n    return (p, k)\ntry:\n    r = f(1, k=2, **{'k': 3})\nexcept TypeError:\n    r = 'TypeError'\n"),
     ("annotated-assignment-is-local", "x = 1\ndef f():\n    try:\n        return x\n    except NameError as e:\n        return 'unbound'\n    x: int = 2\nr = f()\n"),
@@ -3548,7 +3552,15 @@ class _Gen:
         if k == "try2":
             return f"{pad}try:\n" + self.block(d - 1, ind + 1, in_loop) + f"{pad}finally:\n" + self.block(d - 1, ind + 1, False)
         if k == "with":
-            return f"{pad}with {self.expr(1)}" + rng.choice(["", " as c", f" as c, {self.atom()}"]) + ":\n" + self.block(d - 1, ind + 1, in_loop)
+            import random as _random
+            head = self.expr(1)
+            # (second generator seeded from the text: the programs of the fixed seeds stay what they were, one in four gets a
+            # target whose ASSIGNMENT can fail - unpacking, subscript of a non-container - which must still reach __exit__)
+            r2 = _random.Random(head)
+            tail = rng.choice(["", " as c", f" as c, {self.atom()}"])
+            if tail == " as c" and r2.random() < 0.5:
+                tail = r2.choice([" as (a, b)", " as [a]", " as a[0]", " as (a, *b)"])
+            return f"{pad}with {head}" + tail + ":\n" + self.block(d - 1, ind + 1, in_loop)
         if k == "def":
             nm = rng.choice(["g", "h"])
             body = self.block(d - 1, ind + 1, False) + "    " * (ind + 1) + f"return {self.expr(1)}\n"
@@ -3591,6 +3603,13 @@ class _GenF(_Gen):
         # keyword arguments must follow positional ones
         pos = [c for c in call if "=" not in c and not c.startswith("**")]
         kws = [c for c in call if "=" in c or c.startswith("**")]
+        # (a second generator, seeded from the call text, so that the programs of the fixed seeds stay what they were)
+        import random as _random
+        r2 = _random.Random(repr(call))
+        if len(kws) == 2 and r2.random() < 0.5:
+            kws.reverse()           # f(**{'k': ..}, k=..): an explicit keyword AFTER a mapping that may hold the same key
+        if kws and r2.random() < 0.15:
+            kws.insert(r2.randrange(len(kws) + 1), "**{" + repr(r2.choice(["p", "q", "k", "zz"])) + ": " + repr(r2.randrange(3)) + "}")
         return ", ".join(ps), ", ".join(pos + kws)
 
     def fbody(self, d, ind, names):
